@@ -370,7 +370,10 @@ int64_t draw_len(Rng& r, size_t ps, int64_t& budget, bool& big_ok) {
   else if (x < 90) len = r.range(1, (N + 4) * P);
   else len = r.range(1, (N + T + 2) * P);
   if (len < 1) len = 1;
-  if (len > 300000) { if (big_ok) big_ok = false; else len = r.range(1, 2 * P); }
+  if (len > 300000) {
+    if (big_ok) { big_ok = false; return len; }   // at most one very large entry per run, outside the budget
+    len = r.range(1, 2 * P);
+  }
   if (len > budget) len = r.range(1, std::max<int64_t>(1, std::min<int64_t>(2 * P, budget)));
   budget -= len;
   return len;
@@ -579,6 +582,18 @@ void run(const Plan& p) {
     w.join();
     if (others_alive() != 1) check_writer_alive(0, "after all logging threads finished");
   }
+  if (s.mode == 2) {
+    // probe mode: let the writer reach whatever is queued, so that the verdict
+    // does not depend on how far it got when close() is called
+    while (others_alive() > (concurrent_close ? s.nlog : 0) && s.app.pending_size() > 0) ::usleep(100);
+    for (int i = 0; i < 50 && concurrent_close && others_alive() > 1; i++) ::usleep(100);
+    if (others_alive() == 0) {
+      size_t pending = 0;
+      for (EntryRec* e : s.entries) if (e->kind == K_WRITE && e->state == ST_HANDED && e->len > 0 && !entry_in_sink(*e)) pending++;
+      if (pending > 0) check_writer_alive(0, "after all logging threads finished");
+      probe("writer_exit_without_loss");
+    }
+  }
   // Default mix: do not call close() while the slot its stop marker will use is
   // still being recycled by the writer (reads private queue state; avoids the
   // close()-hang finding, which is probed by mode 3 with close_guard = 0).
@@ -588,6 +603,7 @@ void run(const Plan& p) {
       size_t idx = q._next_push_index.load(std::memory_order_relaxed);
       if (q._slots.futex(idx & q._slot_mask).version(std::memory_order_acquire) == q.push_version_for_index(idx)) break;
       probe("close_guard_waited");
+      if (others_alive() == 0) check_writer_alive(0, "before close()");
       ::usleep(20);
     }
   }
@@ -621,9 +637,6 @@ void run(const Plan& p) {
   if (s.app._queue._next_push_index.load(std::memory_order_relaxed) > s.app._queue.capacity()) probe("queue_ring_reused");
   if (s.files.size() > 1 && s.app._destinations.size() > 1) probe("two_destinations");
   // oracles
-  if (s.mode == 2) {
-    // every non-empty entry before close is still owed; empty entries own nothing
-  }
   if (!s.fault_mode) { check_sinks(); check_fds(); }
   check_ledger();
   for (EntryRec* e : s.entries) if (e->kind == K_DISCARD) { probe("discarded_entries"); break; }
